@@ -197,3 +197,80 @@ Proof.
   rewrite E1, E2, E3. reflexivity.
 Qed.
 
+
+(* ---- UDP ASSOCIATE: a datagram whose header is not there in full is dropped and the relay
+   keeps listening; a well-formed IPv4 header is stripped and the payload forwarded ---- *)
+Definition udp_rearm (cx : ctx) (srv c : Z) (wc : net * list kc) : net * list kc :=
+  let u := so_udp srv c in
+  let (w, c0) := wc in
+  let (w, c1) := udp_abort_recv u w in
+  let (w, c2) := udp_async_recv_impl cx u [1500] true (hid_so srv c 17) w in
+  (w, c0 ++ c1 ++ c2).
+
+Definition udp_header_size (n : Z) (data : list Z) : Z :=
+  let atyp := if n <? 4 then 0 else s8 (byte_at data 3) in
+  if atyp =? 1 then 10 else if (atyp =? 3) && (5 <=? n) then 7 + byte_at data 4 else 5.
+
+Theorem udp_truncated_header_is_dropped cx srv c w n d1 d2 fam fa fp data :
+  d32_socks_udp_header (cv cx) = true ->
+  let x := get_sconn w srv c in
+  let from := {| e_addr := {| a_v6 := negb (fam =? 0); a_val := fa |}; e_port := fp |} in
+  e_port (sc_udp_ep x) <> 0 -> ep_eqb from (sc_udp_ep x) = true ->
+  n < udp_header_size n data ->
+  socks_conn_step cx srv c 17 (EC_OK :: n :: d1 :: d2 :: fam :: fa :: fp :: data) w =
+    udp_rearm cx srv c (set_sconn w srv c (x <| sc_udp_ep := sc_udp_ep x |>), []).
+Proof.
+  intros D x from P E H. unfold socks_conn_step. fold x.
+  replace (EC_OK =? EC_OK) with true by reflexivity. cbn [negb].
+  replace (e_port (sc_udp_ep x) =? 0) with false by (symmetry; apply Z.eqb_neq; exact P). cbn [andb].
+  fold from. rewrite E, D. cbn [negb andb].
+  unfold udp_header_size in H.
+  replace (n <? (if (if n <? 4 then 0 else s8 (byte_at data 3)) =? 1 then 10
+                 else if ((if n <? 4 then 0 else s8 (byte_at data 3)) =? 3) && (5 <=? n) then 7 + byte_at data 4 else 5))
+    with true by (symmetry; apply Z.ltb_lt; exact H).
+  reflexivity.
+Qed.
+
+Theorem udp_ipv4_datagram_is_forwarded_stripped cx srv c w n d1 d2 fam fa fp data :
+  d32_socks_udp_header (cv cx) = true ->
+  let x := get_sconn w srv c in
+  let from := {| e_addr := {| a_v6 := negb (fam =? 0); a_val := fa |}; e_port := fp |} in
+  e_port (sc_udp_ep x) <> 0 -> ep_eqb from (sc_udp_ep x) = true ->
+  10 <= n -> byte_at data 3 = 1 ->
+  socks_conn_step cx srv c 17 (EC_OK :: n :: d1 :: d2 :: fam :: fa :: fp :: data) w =
+    udp_rearm cx srv c
+      (let '(_, _, w', cs) := udp_send_to cx (so_udp srv c) [skipn 10 data]
+                               {| e_addr := {| a_v6 := false; a_val := be32_at data 4 |}; e_port := be16_at data 8 |}
+                               (set_sconn w srv c (x <| sc_udp_ep := sc_udp_ep x |>)) in (w', cs)).
+Proof.
+  intros D x from P E N A. unfold socks_conn_step. fold x.
+  replace (EC_OK =? EC_OK) with true by reflexivity. cbn [negb].
+  replace (e_port (sc_udp_ep x) =? 0) with false by (symmetry; apply Z.eqb_neq; exact P). cbn [andb].
+  fold from. rewrite E, D. cbn [negb andb].
+  replace (n <? 4) with false by (symmetry; apply Z.ltb_ge; lia).
+  rewrite A. replace (s8 1 =? 1) with true by reflexivity.
+  replace (n <? 10) with false by (symmetry; apply Z.ltb_ge; lia).
+  unfold udp_rearm.
+  destruct (udp_send_to cx (so_udp srv c) [skipn 10 data] _ _) as [[[e1 n1] w1] cs]. reflexivity.
+Qed.
+
+(* a reply is wrapped in a header naming its source *)
+Theorem udp_reply_is_wrapped cx srv c w n d1 d2 fa fp data :
+  let x := get_sconn w srv c in
+  let from := {| e_addr := {| a_v6 := false; a_val := fa |}; e_port := fp |} in
+  e_port (sc_udp_ep x) <> 0 -> ep_eqb from (sc_udp_ep x) = false ->
+  List.find (fun p => addr_eqb (fst p) (e_addr from)) (sc_names x) = None ->
+  socks_conn_step cx srv c 17 (EC_OK :: n :: d1 :: d2 :: 0 :: fa :: fp :: data) w =
+    udp_rearm cx srv c
+      (let '(_, _, w', cs) := udp_send_to cx (so_udp srv c) [[0; 0; 0; 1] ++ be32_bytes fa ++ be16_bytes fp; data] (sc_udp_ep x)
+                               (set_sconn w srv c (x <| sc_udp_ep := sc_udp_ep x |>)) in (w', cs)).
+Proof.
+  intros x from P E F. unfold socks_conn_step. fold x.
+  replace (EC_OK =? EC_OK) with true by reflexivity. cbn [negb].
+  replace (e_port (sc_udp_ep x) =? 0) with false by (symmetry; apply Z.eqb_neq; exact P). cbn [andb].
+  replace (negb (0 =? 0)) with false by reflexivity. fold from. rewrite E. cbn [a_v6 e_addr from].
+  change (sc_names (x <| sc_udp_ep := sc_udp_ep x |>)) with (sc_names x).
+  unfold from in F. cbn [e_addr] in F. rewrite F.
+  unfold udp_rearm.
+  destruct (udp_send_to cx (so_udp srv c) _ _ _) as [[[e1 n1] w1] cs]. reflexivity.
+Qed.
